@@ -35,7 +35,8 @@ class Pair:
                  provider_ssl=None, consumer_ssl=None, force_ssl=False, role_provider='example',
                  max_subscription_duration=7200, shared_server=True, keep_ctx_states=False, consumer_init_mdib=True,
                  alternative_hostname=None, deferred_dispatch=False, instance_id=1, sequence_id=None,
-                 periodic_reports_interval=None, transport='loopback', encodings=('gzip',), chunk_size=0):
+                 periodic_reports_interval=None, transport='loopback', encodings=('gzip',), chunk_size=0,
+                 validate=True):
         _load_repo()
         from sdc11073.consumer.consumerimpl import SdcConsumer, default_components_factory
         from sdc11073.definitions_sdc import SdcV1Definitions
@@ -81,7 +82,7 @@ class Pair:
                               model_number='1.0', model_url='www.example.com/model',
                               presentation_url='www.example.com/presentation')
         device = ThisDeviceType(friendly_name='Verif Device', firmware_version='0.1', serial_number='1')
-        self.provider = SdcProvider(self.wsd, model, device, mdib, epr=uuid.UUID(int=1), validate=True,
+        self.provider = SdcProvider(self.wsd, model, device, mdib, epr=uuid.UUID(int=1), validate=validate,
                                     ssl_context_container=provider_ssl,
                                     max_subscription_duration=max_subscription_duration, components=comps,
                                     role_provider_components=role_components,
@@ -107,7 +108,7 @@ class Pair:
                 ccomps.action_dispatcher_class = RequestDispatcher
             x_addr = self.provider.get_xaddrs()[0]
             self.consumer = SdcConsumer(x_addr, SdcV1Definitions, consumer_ssl, epr=uuid.UUID(int=2),
-                                        validate=True, components=ccomps, force_ssl_connect=force_ssl,
+                                        validate=validate, components=ccomps, force_ssl_connect=force_ssl,
                                         request_chunk_size=chunk_size if full else 0)
             c_scheme = 'https' if (consumer_ssl is not None) else 'http'
             self.cserver = FakeHttpServer(self.net, '127.0.0.1', 10002, c_scheme)
